@@ -117,6 +117,34 @@ fn build_key(logical: usize, variant: u8) -> Key {
     }
 }
 
+/// Variant 4: one lazily hashed key per logical key, shared by reference between the threads of a
+/// run (what the macros do with their `static` keys), so that the first hashing can race.
+pub const SHARED_VARIANT: u8 = 4;
+static SHARED: Mutex<Vec<&'static Key>> = Mutex::new(vec![]);
+fn fresh_shared_keys() {
+    let v: Vec<&'static Key> = (0..NKEYS)
+        .map(|i| {
+            let k = match i {
+                0 => Key::from_static_name("k0"),
+                1 => Key::from_static_parts("k1", &SL_AB),
+                2 => Key::from_static_name(Box::leak(same_shard_name().to_string().into_boxed_str())),
+                3 => Key::from_static_parts("k0", &SL_A),
+                _ => Key::from_static_parts("k1", &SL_HH),
+            };
+            &*Box::leak(Box::new(k))
+        })
+        .collect();
+    *SHARED.lock().unwrap() = v;
+}
+fn with_key<T>(logical: usize, variant: u8, f: impl FnOnce(&Key) -> T) -> T {
+    if variant == SHARED_VARIANT {
+        let k: &'static Key = SHARED.lock().unwrap()[logical];
+        f(k)
+    } else {
+        f(&build_key(logical, variant))
+    }
+}
+
 fn logical_of(key: &Key) -> Option<usize> {
     (0..NKEYS).find(|&i| build_key(i, 0) == *key)
 }
@@ -201,30 +229,27 @@ pub struct C06Registry;
 fn do_op(reg: &Registry<Key, CountingRef>, op: &Op) -> Res {
     let id_of = |c: &Arc<Cell>| c.id;
     match op {
-        Op::Create { kind, key, variant } => {
-            let k = build_key(*key, *variant);
+        Op::Create { kind, key, variant } => with_key(*key, *variant, |k| {
             Res::Id(match kind {
-                0 => reg.get_or_create_counter(&k, id_of),
-                1 => reg.get_or_create_gauge(&k, id_of),
-                _ => reg.get_or_create_histogram(&k, id_of),
+                0 => reg.get_or_create_counter(k, id_of),
+                1 => reg.get_or_create_gauge(k, id_of),
+                _ => reg.get_or_create_histogram(k, id_of),
             })
-        }
-        Op::Get { kind, key, variant } => {
-            let k = build_key(*key, *variant);
+        }),
+        Op::Get { kind, key, variant } => with_key(*key, *variant, |k| {
             Res::OptId(match kind {
-                0 => reg.get_counter(&k).map(|c| c.id),
-                1 => reg.get_gauge(&k).map(|c| c.id),
-                _ => reg.get_histogram(&k).map(|c| c.id),
+                0 => reg.get_counter(k).map(|c| c.id),
+                1 => reg.get_gauge(k).map(|c| c.id),
+                _ => reg.get_histogram(k).map(|c| c.id),
             })
-        }
-        Op::Delete { kind, key, variant } => {
-            let k = build_key(*key, *variant);
+        }),
+        Op::Delete { kind, key, variant } => with_key(*key, *variant, |k| {
             Res::Bool(match kind {
-                0 => reg.delete_counter(&k),
-                1 => reg.delete_gauge(&k),
-                _ => reg.delete_histogram(&k),
+                0 => reg.delete_counter(k),
+                1 => reg.delete_gauge(k),
+                _ => reg.delete_histogram(k),
             })
-        }
+        }),
         Op::Clear => {
             reg.clear();
             Res::Unit
@@ -288,7 +313,7 @@ impl Scenario for C06Registry {
             for _ in 0..n {
                 let kind = r.below(nkinds as u64) as u8;
                 let key = r.below(nkeys as u64) as usize;
-                let variant = r.below(4) as u8;
+                let variant = r.below(6).min(4) as u8; // 4 (twice as likely) = the run's shared lazily hashed key
                 let op = match r.below(20) {
                     0..=8 => Op::Create { kind, key, variant },
                     9..=11 => Op::Get { kind, key, variant },
@@ -318,6 +343,7 @@ impl Scenario for C06Registry {
     }
     fn execute(&self, plan: &Plan, sched: &SchedSpec) -> RunReport {
         let _ = same_shard_name(); // computed outside the simulation
+        fresh_shared_keys();
         let hist: Arc<Mutex<Vec<Ev>>> = Arc::new(Mutex::new(vec![]));
         let storage = Arc::new(Counting { next: AtomicU64::new(0), log: Mutex::new(vec![]) });
         let p = plan.clone();
